@@ -127,14 +127,34 @@ theorem Shaped.src_mem {e : Emu} (hs : Shaped e) {s : Src} {ch : Chan} (h : e.sr
         exact ⟨(List.getElem?_eq_some_iff.mp ht).1, m, hm, by
           rw [hn]; exact (List.getElem?_eq_some_iff.mp h).1⟩
 
-/-- `e'` is reachable from `e` by channel operations that the bay can replay. -/
-def Sim (e e' : Emu) : Prop :=
+/-- thread state / CPU `th_running`, `th_active` (written by the ovni thread and affinity events) -/
+def Src.isSys : Src → Prop
+  | .raw _ _ _ => False
+  | _ => True
+
+/-- raw model channels (written by the models' own events) -/
+def Src.isRaw : Src → Prop
+  | .raw _ _ _ => True
+  | _ => False
+
+/-- channel ids of the sources of class `P` -/
+def Shape.okP (σ : Shape) (P : Src → Prop) (c : Nat) : Prop := ∃ s, s ∈ σ.addrs ∧ P s ∧ c = σ.idx s
+
+theorem Shape.okP_lt {σ : Shape} {P : Src → Prop} {c : Nat} (h : σ.okP P c) : c < σ.L := by
+  obtain ⟨s, hs, _, rfl⟩ := h; exact σ.idx_lt hs
+
+/-- `e'` is reachable from `e` by channel operations on sources of class `P`
+    that the bay can replay. -/
+def SimP (P : Src → Prop) (e e' : Emu) : Prop :=
   Shaped e → Shaped e' ∧ e'.shape = e.shape ∧
-    ∀ b, Mirrors e b → ∃ b1, Bay.Writes (· < e.shape.L) b b1 ∧ Mirrors e' b1
+    ∀ b, Mirrors e b → ∃ b1, Bay.Writes (e.shape.okP P) b b1 ∧ Mirrors e' b1
 
-theorem Sim.refl (e : Emu) : Sim e e := fun hs => ⟨hs, rfl, fun b hm => ⟨b, .nil b, hm⟩⟩
+/-- any source channels -/
+def Sim (e e' : Emu) : Prop := SimP (fun _ => True) e e'
 
-theorem Sim.trans {e e1 e2 : Emu} (h1 : Sim e e1) (h2 : Sim e1 e2) : Sim e e2 := by
+theorem SimP.refl {P : Src → Prop} (e : Emu) : SimP P e e := fun hs => ⟨hs, rfl, fun b hm => ⟨b, .nil b, hm⟩⟩
+
+theorem SimP.trans {P : Src → Prop} {e e1 e2 : Emu} (h1 : SimP P e e1) (h2 : SimP P e1 e2) : SimP P e e2 := by
   intro hs
   obtain ⟨hs1, hsh1, hw1⟩ := h1 hs
   obtain ⟨hs2, hsh2, hw2⟩ := h2 hs1
@@ -143,6 +163,18 @@ theorem Sim.trans {e e1 e2 : Emu} (h1 : Sim e e1) (h2 : Sim e1 e2) : Sim e e2 :=
   obtain ⟨b2, w2, m2⟩ := hw2 b1 m1
   rw [hsh1] at w2
   exact ⟨b2, w1.trans w2, m2⟩
+
+theorem SimP.mono {P Q : Src → Prop} {e e' : Emu} (hpq : ∀ s, P s → Q s) (h : SimP P e e') : SimP Q e e' := by
+  intro hs
+  obtain ⟨hs1, hsh1, hw1⟩ := h hs
+  refine ⟨hs1, hsh1, fun b hm => ?_⟩
+  obtain ⟨b1, w1, m1⟩ := hw1 b hm
+  exact ⟨b1, w1.mono (fun c ⟨s, h1, h2, h3⟩ => ⟨s, h1, hpq s h2, h3⟩), m1⟩
+
+theorem SimP.sim {P : Src → Prop} {e e' : Emu} (h : SimP P e e') : Sim e e' := h.mono (fun _ _ => trivial)
+
+theorem Sim.refl (e : Emu) : Sim e e := SimP.refl e
+theorem Sim.trans {e e1 e2 : Emu} (h1 : Sim e e1) (h2 : Sim e1 e2) : Sim e e2 := SimP.trans h1 h2
 
 theorem Bay.write1 {b : Bay} {c : Nat} {ch ch' : Chan} {f : Chan → Except Err Chan}
     (hc : b.chans[c]? = some ch) (hfc : f ch = .ok ch') :
@@ -155,8 +187,8 @@ theorem Bay.write1 {b : Bay} {c : Nat} {ch ch' : Chan} {f : Chan → Except Err 
   · intro c' hne; simp [List.getElem?_set_ne (Ne.symm hne)]
 
 /-- Nothing mirrored changes. -/
-theorem Sim.of_same {e e' : Emu} (hsh : Shaped e → Shaped e' ∧ e'.shape = e.shape)
-    (hsrc : ∀ s, e'.src s = e.src s) : Sim e e' := by
+theorem SimP.of_same {P : Src → Prop} {e e' : Emu} (hsh : Shaped e → Shaped e' ∧ e'.shape = e.shape)
+    (hsrc : ∀ s, e'.src s = e.src s) : SimP P e e' := by
   intro hs
   obtain ⟨hs', hshape⟩ := hsh hs
   refine ⟨hs', hshape, fun b hm => ⟨b, .nil b, ?_⟩⟩
@@ -164,16 +196,16 @@ theorem Sim.of_same {e e' : Emu} (hsh : Shaped e → Shaped e' ∧ e'.shape = e.
   rw [hshape]; rw [hsrc] at h; exact hm s ch h
 
 /-- One channel operation on source `s0`. -/
-theorem Sim.of_write {e e' : Emu} (hsh : Shaped e → Shaped e' ∧ e'.shape = e.shape) (s0 : Src)
-    {ch ch' : Chan} {f : Chan → Except Err Chan} (hf : ChanOp f)
+theorem SimP.of_write {P : Src → Prop} {e e' : Emu} (hsh : Shaped e → Shaped e' ∧ e'.shape = e.shape) (s0 : Src)
+    (hP : P s0) {ch ch' : Chan} {f : Chan → Except Err Chan} (hf : ChanOp f)
     (h0 : e.src s0 = some ch) (hfc : f ch = .ok ch') (h0' : e'.src s0 = some ch')
-    (hsrc : ∀ s, s ≠ s0 → e'.src s = e.src s) : Sim e e' := by
+    (hsrc : ∀ s, s ≠ s0 → e'.src s = e.src s) : SimP P e e' := by
   intro hs
   obtain ⟨hs', hshape⟩ := hsh hs
   refine ⟨hs', hshape, fun b hm => ?_⟩
   have hmem0 := hs.src_mem h0
   obtain ⟨b1, hw, h1, h2⟩ := Bay.write1 (hm s0 ch h0) hfc
-  refine ⟨b1, .snoc (.nil b) (e.shape.idx_lt hmem0) hf hw, ?_⟩
+  refine ⟨b1, .snoc (.nil b) ⟨s0, hmem0, hP, rfl⟩ hf hw, ?_⟩
   intro s c h
   rw [hshape]
   by_cases hne : s = s0
@@ -236,26 +268,27 @@ theorem Shaped.setThread {e : Emu} (hs : Shaped e) {ti : Nat} {t t' : Thread} (h
   · simp only [Emu.shape, hthr, List.length_set]; rfl
 
 /-- `thread_set_state` & co. stored back: one operation on the state channel. -/
-theorem Sim.setThread {e : Emu} {ti : Nat} {t t' : Thread} (ht : e.threads[ti]? = some t)
+theorem SimP.setThread {P : Src → Prop} {e : Emu} {ti : Nat} {t t' : Thread} (hP : P (.st ti))
+    (ht : e.threads[ti]? = some t)
     (hg : t'.gindex = t.gindex) (hmch : t'.mch = t.mch)
     {f : Chan → Except Err Chan} (hf : ChanOp f) (hfc : f t.chState = .ok t'.chState)
     (hst : t.chState.ignoreDup = false → StateChan t'.chState.cur t'.state) :
-    Sim e (e.setThread t') := by
+    SimP P e (e.setThread t') := by
   intro hs
   have hgi : t'.gindex = ti := hg.trans (hs.thIdx ti t ht)
-  exact Sim.of_write (fun hs => hs.setThread ht hgi hmch
-      ⟨hst (hs.st ti t ht).2, by rw [(hf _ _ hfc).2.2.2.2]; exact (hs.st ti t ht).2⟩) (.st ti) hf
+  exact SimP.of_write (fun hs => hs.setThread ht hgi hmch
+      ⟨hst (hs.st ti t ht).2, by rw [(hf _ _ hfc).2.2.2.2]; exact (hs.st ti t ht).2⟩) (.st ti) hP hf
     (by simp only [Emu.src, ht, Option.map_some]) hfc (Emu.src_setThread_st ht hgi)
     (fun s hne => Emu.src_setThread ht hgi hmch s hne) hs
 
 /-- A thread update that touches no mirrored channel. -/
-theorem Sim.setThread_same {e : Emu} {ti : Nat} {t t' : Thread} (ht : e.threads[ti]? = some t)
+theorem SimP.setThread_same {P : Src → Prop} {e : Emu} {ti : Nat} {t t' : Thread} (ht : e.threads[ti]? = some t)
     (hg : t'.gindex = t.gindex) (hmch : t'.mch = t.mch) (hst : t'.chState = t.chState)
     (hstate : t'.state = t.state) :
-    Sim e (e.setThread t') := by
+    SimP P e (e.setThread t') := by
   intro hs
   have hgi : t'.gindex = ti := hg.trans (hs.thIdx ti t ht)
-  refine Sim.of_same (fun hs => hs.setThread ht hgi hmch (by rw [hst, hstate]; exact hs.st ti t ht))
+  refine SimP.of_same (fun hs => hs.setThread ht hgi hmch (by rw [hst, hstate]; exact hs.st ti t ht))
     (fun s => ?_) hs
   by_cases hne : s = .st ti
   · subst hne
@@ -301,11 +334,12 @@ theorem Shaped.setCpu {e : Emu} (hs : Shaped e) {ci : Nat} {c c' : Cpu} (hc : e.
   · simp only [Emu.shape, hcp, List.length_set]; rfl
 
 /-- `cpu_update` stored back: one operation on `th_running`, one on `th_active`. -/
-theorem Sim.setCpu {e : Emu} {ci : Nat} {c c' : Cpu} (hc : e.cpus[ci]? = some c)
+theorem SimP.setCpu {P : Src → Prop} {e : Emu} {ci : Nat} {c c' : Cpu} (hPr : P (.run ci)) (hPa : P (.act ci))
+    (hc : e.cpus[ci]? = some c)
     (hg : c'.gindex = c.gindex)
     {f1 f2 : Chan → Except Err Chan} (hf1 : ChanOp f1) (hf2 : ChanOp f2)
     (h1 : f1 c.chThrun = .ok c'.chThrun) (h2 : f2 c.chThact = .ok c'.chThact)
-    (hrun : RunOk e.threads.length c'.chThrun.cur) : Sim e (e.setCpu c') := by
+    (hrun : RunOk e.threads.length c'.chThrun.cur) : SimP P e (e.setCpu c') := by
   intro hs
   have hgi : c'.gindex = ci := hg.trans (hs.cpuIdx ci c hc)
   -- intermediate state: only `th_running` written
@@ -316,8 +350,8 @@ theorem Sim.setCpu {e : Emu} {ci : Nat} {c c' : Cpu} (hc : e.cpus[ci]? = some c)
     simp only [Emu.setCpu, hg1, List.getElem?_set_self hlt]
   have hfin : (e.setCpu c1).setCpu c' = e.setCpu c' := by
     simp only [Emu.setCpu, hg1, hgi, List.set_set]
-  have s1 : Sim e (e.setCpu c1) :=
-    Sim.of_write (fun hs => hs.setCpu hc hg1 hrun) (.run ci) hf1
+  have s1 : SimP P e (e.setCpu c1) :=
+    SimP.of_write (fun hs => hs.setCpu hc hg1 hrun) (.run ci) hPr hf1
       (by simp only [Emu.src, hc, Option.map_some]) h1 (Emu.src_setCpu_run hc hg1).1
       (fun s hne => by
         by_cases ha : s = .act ci
@@ -325,9 +359,9 @@ theorem Sim.setCpu {e : Emu} {ci : Nat} {c c' : Cpu} (hc : e.cpus[ci]? = some c)
           rw [(Emu.src_setCpu_run hc hg1).2]
           simp only [Emu.src, hc, Option.map_some]; rfl
         · exact Emu.src_setCpu hc hg1 s hne ha)
-  have s2 : Sim (e.setCpu c1) (e.setCpu c') := by
+  have s2 : SimP P (e.setCpu c1) (e.setCpu c') := by
     rw [← hfin]
-    refine Sim.of_write (fun hs1 => hs1.setCpu hc1 hgi hrun) (.act ci) hf2
+    refine SimP.of_write (fun hs1 => hs1.setCpu hc1 hgi hrun) (.act ci) hPa hf2
       (by simp only [Emu.src, hc1, Option.map_some]; rfl) h2 (Emu.src_setCpu_run hc1 hgi).2
       (fun s hne => ?_)
     by_cases hr : s = .run ci
